@@ -1,5 +1,6 @@
 // one file per component; `dispatch` routes a protocol op to it
 pub mod base64;
+pub mod serve;
 
 pub fn dispatch(op: &str, f: &[String]) -> String {
     if let Some(r) = base64::dispatch(op, f) { return r; }
@@ -7,6 +8,9 @@ pub fn dispatch(op: &str, f: &[String]) -> String {
 }
 
 /// non-codec modes (serve, pool, config …); returns false when the mode is unknown
-pub fn run_mode(_mode: &str, _args: &[String]) -> bool {
-    false
+pub fn run_mode(mode: &str, _args: &[String]) -> bool {
+    match mode {
+        "serve" => { serve::serve_loop(); true }
+        _ => false,
+    }
 }
